@@ -213,7 +213,7 @@ theorem slot_login (cfg : Cfg) (w : World) (s s' : SState) (login : Str) (hs : s
 theorem worker_keeps (w : World) (s : SState) (t : Path) (v : Verb) (p : Bytes) :
     (worker w s t v p).1.serverFree = w.serverFree ∧ (worker w s t v p).1.userFree = w.userFree ∧
     (worker w s t v p).2.1.acquired = s.acquired ∧ (worker w s t v p).2.1.user = s.user := by
-  unfold worker
+  unfold worker workerK
   split
   · exact ⟨rfl, rfl, rfl, rfl⟩
   · cases v <;> (try simp only []) <;> (try split) <;> simp
@@ -262,7 +262,7 @@ theorem slot_dispatch (cfg : Cfg) (w : World) (s : SState) (name rest : Str) (p 
     SlotStep w s (dispatch cfg w s name rest p).1 (dispatch cfg w s name rest p).2.1 := by
   unfold dispatch
   split
-  · exact SlotStep.refl w s
+  · exact SlotStep.of_eq rfl rfl (by simp) (by simp)
   · rename_i v _
     have h := slot_runVerb cfg w (resetRestart name s) v rest p
     have h0 : SlotStep w s w (resetRestart name s) := SlotStep.of_eq rfl rfl (by simp) (by simp)
